@@ -66,7 +66,13 @@ let is_setter = function OSetBody _ | OSetWits _ | OSetAux _ -> true | _ -> fals
 (* input: the bytes the judge reads (for txn/txb: the four-element transaction assembled from the arguments) *)
 let run_tx (load : fixed_tx result) (judge_input : n list option) (optoks : string list) (impl : string list) : string * string =
   match load with
-  | Err -> ("err", "na")
+  | Err ->
+    (* the library reads fixed-arity arrays inside the body / auxiliary data without checking their declared
+       length (C02's open finding), so it can accept bytes that are not a CBOR data item at all; the model (and
+       C04's statement) only speak about inputs that are well-formed in the generic reading *)
+    let wellformed = (match judge_input with Some inp -> (match spec_slices inp with Some _ -> true | None -> false) | None -> false) in
+    if (match impl with "ok" :: _ -> true | _ -> false) && not wellformed then ("skip impl-accepts-illformed", "na")
+    else ("err", "na")
   | Panic -> ("panic", "na")
   | OutOfFuel -> ("outoffuel", "na")
   | Ok tx ->
@@ -366,6 +372,11 @@ let pick_noise () : noise =
   | _ -> { widen = 40; indef = 40; chunk = 40; shuffle = 60; untag = 30 }
 
 let rand_hex (k : int) : string = hex_of_string (String.init k (fun _ -> Char.chr (below 256)))
+let huge_len_ref : (string -> bool) ref = ref (fun _ -> false)
+(* random bytes that are not a string head with an enormous declared length (see huge_len) *)
+let rec junk_hex (k : int) : string =
+  let s = String.init k (fun _ -> Char.chr (below 256)) in
+  if !huge_len_ref s then junk_hex k else hex_of_string s
 
 (* one witness set: schema value, printed field by field so that the map itself can be disturbed *)
 let gen_wits (nz : noise) (size : int) : string =
@@ -433,8 +444,9 @@ let gen_ops (body : string) (sign_ok : bool) : string list =
       | 5 -> [Printf.sprintf "vl:%d" (below 2)]
       | 6 -> (match below 3 with
           | 0 -> [Printf.sprintf "sx:%s" (hex_of_string (gen_aux quiet 2))]
-          | 1 -> [Printf.sprintf "sw:%s" (hex_of_string (gen_wits (if chance 50 then quiet else pick_noise ()) 3))]
-          | _ -> [Printf.sprintf "sx:%s" (rand_hex (1 + below 6))])
+          | 1 -> if chance 25 then [Printf.sprintf "sw:%s" (junk_hex (1 + below 5))]
+                 else [Printf.sprintf "sw:%s" (hex_of_string (gen_wits (if chance 50 then quiet else pick_noise ()) 3))]
+          | _ -> [Printf.sprintf "sx:%s" (junk_hex (1 + below 6))])
       | 7 | 8 | 9 | 10 | 11 -> [Printf.sprintf "sv:%s:%s" (rand_hex 32) (hex_of_string !cur)]
       | 12 | 13 | 14 -> [Printf.sprintf "si:%s:%s" (rand_hex 16) (hex_of_string !cur)]
       | 15 | 16 ->
@@ -445,7 +457,7 @@ let gen_ops (body : string) (sign_ok : bool) : string list =
         let b = (match !body_pool with [] -> body | l -> List.nth l (below (List.length l))) in
         let b = if chance 15 then b ^ "\x00" else b in
         cur := b; [Printf.sprintf "sb:%s" (hex_of_string b)]
-      | _ -> [Printf.sprintf "sb:%s" (rand_hex (1 + below 5))]))          (* junk: rejected, nothing changes *)
+      | _ -> [Printf.sprintf "sb:%s" (junk_hex (1 + below 5))]))          (* junk: rejected, nothing changes *)
 
 let gen_tx_parts () : string * string * string * string option * noise =
   let nz = pick_noise () in
@@ -467,7 +479,33 @@ let assemble (body, wits, valid, aux, _nz) : string =
   let trail = if chance 10 then String.init (1 + below 4) (fun _ -> Char.chr (below 256)) else "" in
   head ^ body ^ wits ^ valid ^ aux ^ close ^ trail
 
-let mutate (s : string) : string =
+(* a byte/text string head with a 4- or 8-byte length far beyond the input makes cbor_event allocate that much
+   before it notices the truncation (allocation failure aborts the process: C02's known finding, DESIGN 7 row 7);
+   such inputs are kept out of this run.  Every position is looked at, not only the parse positions. *)
+let huge_len (s : string) : bool =
+  (* flat token walk: CBOR is prefix-coded, so every reader visits these head positions until the first error *)
+  let n = String.length s in
+  let rec go i =
+    if i >= n then false else
+    let c = Char.code s.[i] in
+    let major = c lsr 5 and ai = c land 31 in
+    if ai >= 28 then (if ai = 31 then go (i + 1) else false) else
+    let w = if ai < 24 then 0 else if ai = 24 then 1 else if ai = 25 then 2 else if ai = 26 then 4 else 8 in
+    if i + w >= n && w > 0 then false else
+    let arg = ref (if w = 0 then float_of_int ai else 0.0) in
+    for j = 1 to w do arg := !arg *. 256.0 +. float_of_int (Char.code s.[i + j]) done;
+    match major with
+    | 2 | 3 ->
+      if !arg > float_of_int (n - i - 1 - w) then !arg > 100000.0
+      else go (i + 1 + w + int_of_float !arg)
+    | _ -> go (i + 1 + w) in
+  go 0
+
+let () = huge_len_ref := huge_len
+
+let rec mutate (s0 : string) : string =
+  let r = mutate1 s0 in if huge_len r then mutate s0 else r
+and mutate1 (s : string) : string =
   let s = ref s in
   for _ = 1 to 1 + below 3 do
     let l = String.length !s in
